@@ -65,8 +65,31 @@ func genFlags(t *rapid.T) string {
 	return s
 }
 
+// c13Padded turns a short value into one held in a long mantissa (as exact quotients, SetInt, SetRat, SetFloat and
+// cancellations at a large precision leave them): 3 to 40 words, all but the top ones zero. A formatter that looks at a
+// part of the mantissa only, or derives a sticky bit from the words below it, shows on ties and exact values.
+func c13Padded(t *rapid.T, x *h.Spec, label string) {
+	if rapid.IntRange(0, 3).Draw(t, label+".padded") != 0 {
+		return
+	}
+	x.P = uint(len(x.D)) + uint(19*rapid.IntRange(2, 40).Draw(t, label+".padwords")+rapid.IntRange(0, 18).Draw(t, label+".padoff"))
+	x.Hist = "padfull"
+}
+
 func genC13(t *rapid.T) C13Case {
 	c := C13Case{}
+	if h.Rare(t, "badverb", 40) {
+		c.Kind = "badverb"
+		c.Bits = genFloat64Bits(t, "f")
+		if math.IsNaN(math.Float64frombits(c.Bits)) {
+			c.Bits = math.Float64bits(-2.5)
+		}
+		c.X = float64Spec(math.Float64frombits(c.Bits))
+		c.Verb = string(rapid.SampledFrom([]byte("FPBdzZ?%vs q#0\x00\xff")).Draw(t, "badverb.c"))
+		c.Prec = rapid.SampledFrom([]int{-1, -1, -2, -1000, math.MinInt32, 0, 1, 17, 400}).Draw(t, "badverb.p")
+		c.HasPrec = true
+		return c
+	}
 	if rapid.IntRange(0, 2).Draw(t, "kind") == 0 {
 		c.Kind = "f64"
 		c.Bits = genFloat64Bits(t, "f")
@@ -97,6 +120,7 @@ func genC13(t *rapid.T) C13Case {
 			dig := rapid.SampledFrom([]string{"5", "5" + zl + d, "4" + nl + d, "51", "49", "9" + nl + "5", "95", "5" + zl + "5", "4" + nl + "9" + d}).Draw(t, "lt.dig")
 			c.X = h.Spec{F: "f", D: strings.TrimRight(dig, "0"), E: int64(rapid.IntRange(-30, 3).Draw(t, "lt.e")), Neg: rapid.Bool().Draw(t, "lt.neg"), M: h.GenMode(t, "lt.m")}
 			c.X.P = uint(len(c.X.D)) + uint(rapid.SampledFrom([]int{0, 0, 0, 1, 7}).Draw(t, "lt.p"))
+			c13Padded(t, &c.X, "lt")
 			c.Verb = rapid.SampledFrom([]string{"f", "F", "f", "e", "g"}).Draw(t, "lt.verb")
 			c.HasPrec = true
 			c.Prec = int(-c.X.E) + rapid.SampledFrom([]int{0, 0, 0, -1, 1}).Draw(t, "lt.off")
@@ -110,6 +134,7 @@ func genC13(t *rapid.T) C13Case {
 			p := rapid.IntRange(1, 12).Draw(t, "rp")
 			c.X = h.Spec{F: "f", D: h.GenRoundDigits(t, "x", p), E: int64(rapid.IntRange(-45, 25).Draw(t, "xe")), Neg: rapid.Bool().Draw(t, "neg"), M: h.GenMode(t, "xm")}
 			c.X.P = uint(len(c.X.D)) + uint(rapid.IntRange(0, 5).Draw(t, "xp"))
+			c13Padded(t, &c.X, "x")
 		} else {
 			c.X = h.GenAny(t, "x", 300)
 			if c.X.F == "f" {
@@ -181,6 +206,26 @@ func checkC13(c C13Case, o *h.Obs) *h.Fail {
 	xv := c.X.Val()
 	mode := model.Mode(c.X.M)
 	o.Label(c.Kind + ":" + c.Verb)
+	if c.Kind == "badverb" {
+		// a format byte that is none of e E f g G p b, any precision: Text/Append answer as strconv.FormatFloat
+		// does for a byte it does not know ("%" followed by the byte; infinities are printed as such) - and in
+		// particular they answer (a panic is reported by the runner)
+		f := math.Float64frombits(c.Bits)
+		want := strconv.FormatFloat(f, c.Verb[0], c.Prec, 64)
+		if math.IsInf(f, 1) {
+			want = "+Inf"
+		}
+		for _, buf := range [][]byte{nil, {}, make([]byte, 0, 1), append(make([]byte, 0, 2), 'x', '='), append(make([]byte, 0, 64), 'x', '=')} {
+			prefix := string(buf)
+			if got := string(x.Append(buf, c.Verb[0], c.Prec)); got != prefix+want {
+				return h.Failf("badverb", "Append(%q (cap %d), %q, %d) of %v = %q, strconv.FormatFloat gives %q", prefix, cap(buf), c.Verb, c.Prec, xv, h.FirstN(got, 200), want)
+			}
+		}
+		if got := x.Text(c.Verb[0], c.Prec); got != want {
+			return h.Failf("badverb", "Text(%q, %d) of %v = %q, strconv.FormatFloat gives %q", c.Verb, c.Prec, xv, h.FirstN(got, 200), want)
+		}
+		return nil
+	}
 	textVerb := c.Verb
 	switch textVerb {
 	case "F":
@@ -290,7 +335,7 @@ func checkC13(c C13Case, o *h.Obs) *h.Fail {
 	return nil
 }
 
-const ruleC13 = "rapid-generated (value, verb/format, precision -1..40 or near the value's digit count / leading-digit position, flags from {+, space, 0, -}, width 0..40). Append onto prefixes that look like parts of a number ('v1.0: ', '-0.5e+07 ', '9.', 'Inf') must equal prefix + Text. Two oracles. (f64) the value is the exact decimal expansion (<= 767 digits) of a float64 (uniform bits, subnormals, extremes, decimal-looking values n/10^k, dyadic fractions, +-0, +-Inf), mode ToNearestEven: Text(c,p) == strconv.FormatFloat(f,c,p,64) for p >= 0 and fmt.Sprintf(spec, x) == fmt.Sprintf(spec, f). (ref) any Decimal incl. dirty zeros/infinities and 1-12 digit values with tie/all-nines patterns at exponents -45..25, under its own rounding mode: Text == reference formatter (round once with the reference rounding at the requested position, which may lie at or above the leading digit, then strconv's e/f/g layout rules; p and b per the Text documentation), and Format == fmt's sign/width/flag rules applied to that body (the emulation is itself cross-checked against fmt on every f64 case). In one case in eight with a width the width is chosen from the formatted length so that the padding is exactly 31..33, 63..65, 127..129, 255..257, 384, 512, 1000, 1024, 2048, 4095..4097, 8191..8193, 8200, 16384, 65537 or 300000 bytes. '-' together with '0' is checked like every other combination ('-' wins, as in fmt). Excluded by construction and counted: '+'/' ' with %v in the fmt differential (fmt's plusV), 'f' with |exp| > 5000. Non-trivial = the value has more digits than requested, or the rounding position is at/above the leading digit, or flags/width are non-default."
+const ruleC13 = "rapid-generated (value, verb/format, precision -1..40 or near the value's digit count / leading-digit position, flags from {+, space, 0, -}, width 0..40). Append onto prefixes that look like parts of a number ('v1.0: ', '-0.5e+07 ', '9.', 'Inf') must equal prefix + Text. Two oracles. (f64) the value is the exact decimal expansion (<= 767 digits) of a float64 (uniform bits, subnormals, extremes, decimal-looking values n/10^k, dyadic fractions, +-0, +-Inf), mode ToNearestEven: Text(c,p) == strconv.FormatFloat(f,c,p,64) for p >= 0 and fmt.Sprintf(spec, x) == fmt.Sprintf(spec, f). (ref) any Decimal incl. dirty zeros/infinities and 1-12 digit values with tie/all-nines patterns at exponents -45..25 (a quarter of them held in zero-padded mantissas of 3..40 words), under its own rounding mode: Text == reference formatter (round once with the reference rounding at the requested position, which may lie at or above the leading digit, then strconv's e/f/g layout rules; p and b per the Text documentation), and Format == fmt's sign/width/flag rules applied to that body (the emulation is itself cross-checked against fmt on every f64 case). In one case in eight with a width the width is chosen from the formatted length so that the padding is exactly 31..33, 63..65, 127..129, 255..257, 384, 512, 1000, 1024, 2048, 4095..4097, 8191..8193, 8200, 16384, 65537 or 300000 bytes. '-' together with '0' is checked like every other combination ('-' wins, as in fmt). One case in forty gives Text/Append a format byte outside e E f g G p b (with precisions from MinInt32 to 400, buffers of capacity 0, 1, 2 and 64): the answer must be strconv.FormatFloat's for an unknown byte. Excluded by construction and counted: '+'/' ' with %v in the fmt differential (fmt's plusV), 'f' with |exp| > 5000. Non-trivial = the value has more digits than requested, or the rounding position is at/above the leading digit, or flags/width are non-default."
 
 // carryPastMaxExp: rounding x at the requested position carries into a power of
 // ten whose exponent is MaxExp+1, which the temporary Decimal used by Append
